@@ -242,7 +242,7 @@ IANA = ["Europe/Berlin", "America/New_York", "Australia/Lord_Howe", "America/St_
 BASE = 1_600_000_000_000_000
 SYNTH = [["synth", BASE + 3_000_000, 60, 120, "gap"], ["synth", BASE + 5_000_000, 120, 60, "fold"],
          ["synth", BASE + 2_000_000, 0, 60, "zero-gap"], ["synth", BASE + 4_000_000, 60, 0, "zero-fold"],
-         ["synth", BASE + 40_000_000, -210, -240, "fold-west"], ["synth", 2**51 + 777_000, 765, 720, "fold-2041"]]
+         ["synth", BASE + 40_000_000, -210, -240, "fold-west"], ["synth", (2**51 // 10**6 + 1) * 10**6, 765, 720, "fold-2041"]]   # changes on whole seconds, as in the tz database
 DATA = [{}, {"app": "a"}, {"title": "x", "n": 1}, {"nested": {"l": [1, 2.5, None, True]}}]
 DURS = [{"kind": "td", "us": 0}, {"kind": "td", "us": 1_500_000}, {"kind": "int", "s": 60}, {"kind": "float", "hex": (1.5).hex()},
         {"kind": "float", "hex": (0.1).hex()}, {"kind": "td", "us": 30 * 86400 * 10**6 + 1}, {"kind": "float", "hex": (2.5e-6).hex()}]
